@@ -188,7 +188,17 @@ func (c *ChunkBuffer) ChunkedString(level, offset int) string {
 			buf.WriteString(c.chunkString(state, chunk.buffer))
 		// prefix operator
 		case Prefix:
-			if next := c.nextChunk(); next != nil {
+			next := c.nextChunk()
+			// The comments between the operator and its operand are printed in front of the operator
+			for next != nil && next.Type == Comment {
+				if next.isLineComment() {
+					buf.WriteString(c.chunkLineComment(state, next))
+				} else {
+					buf.WriteString(c.chunkString(state, next.buffer))
+				}
+				next = c.nextChunk()
+			}
+			if next != nil {
 				if next.Type == Group {
 					// prefix operator on a grouped expression like !(a && b)
 					if inner := c.nextChunk(); inner != nil {
@@ -266,6 +276,10 @@ OUT:
 			continue
 		}
 		break
+	}
+	// A parenthesised or prefixed operand is made of several chunks, leave it to the main loop
+	if peek.Type == Group || peek.Type == Prefix {
+		return ""
 	}
 	// Finally, add token buffer
 	expr.WriteString(" " + peek.buffer)
